@@ -150,7 +150,8 @@ void skinny_c_verif_cpuid(uint32_t leaf, uint32_t subleaf, uint32_t regs[4])
     leaf_regs(leaf, subleaf, regs);
 }
 
-uint64_t skinny_c_verif_xgetbv(uint32_t index) { ++M.queries; return index == 0 ? M.xcr0 : 0; }
+static int g_xgetbv_ud;      /* XGETBV executed although CPUID.1:ECX.OSXSAVE is clear: #UD on a real machine */
+uint64_t skinny_c_verif_xgetbv(uint32_t index) { ++M.queries; if (!M.osxsave) g_xgetbv_ud = 1; return index == 0 ? M.xcr0 : 0; }
 
 int main(int argc, char **argv)
 {
@@ -179,12 +180,16 @@ int main(int argc, char **argv)
                 size_t ps; int ret, be;
                 arena_reset();
                 g_paint = rep ? 0xFF : 0;
-                M.queries = 0;
+                M.queries = 0; g_xgetbv_ud = 0;
                 { int cv[6]; cv[0] = (int)(a * 16 + b * 8 + c * 4 + d * 2 + e); cv[1] = (int)f; cv[2] = (int)(g * 4 + h * 2 + k); cv[3] = i; cv[4] = rep; crash_case("C13", "c13b-packed", 5, cv, NULL, 0); }
                 be = do_init(i, rep ? 0xFFFFFFFFFFFFFFFFULL : 7, &ps, &ret);
                 crash_case_done();
                 snprintf(cd, sizeof(cd), "c13b %u %u %u %u %u %u %u %u %u %d", a, b, c, d, e, f, g, h, k, i);
                 judge(i, be, ps, ret, want, env, cd);
+                if (g_xgetbv_ud) {
+                    char sg[160]; snprintf(sg, sizeof(sg), "C13/%s/probe-executes-xgetbv-without-osxsave", INITNAME[i]);
+                    violation(sg, cd, "%s executed XGETBV on a machine whose CPUID.1:ECX.OSXSAVE bit is clear - an undefined-opcode fault there (%s)", INITNAME[i], env);
+                }
                 if (be > host && be <= 2) engine_error("model run selected a back end the host cannot execute");
             }
             distinct_add_u64(fnv1a(env, strlen(env), (uint64_t)i));
